@@ -61,6 +61,19 @@ try:
     # the demo itself fails by design
     demo_tests = set(re.findall(r"^func (Test\w+)\(", txt, re.M))
     unexpected = sorted(fails - KNOWN_BAD - demo_tests)
+    # load-induced flakes: re-run each unexpected failure alone (twice at most)
+    still = []
+    for t in unexpected:
+        passed = False
+        for _ in range(2):
+            rcx, outx = sh("go test -vet=off -count=1 -run '^%s$' ./... 2>&1" % t, wt, 900)
+            if rcx == 0 or not re.search(r"--- FAIL: %s\b" % t, outx):
+                passed = True
+                break
+        if not passed:
+            still.append(t)
+    rec["suite_flaky_retried"] = [t for t in unexpected if t not in still]
+    unexpected = still
     rec["suite_unexpected_failures"] = unexpected
     rec["suite_build_failed"] = bool(re.search(r"\[build failed\]|cannot find|undefined:", out))
     rec["ok"] = (rc0 == 0 and rec["build_rc"] == 0 and rc1 != 0 and not unexpected and not rec["suite_build_failed"])
